@@ -909,7 +909,9 @@ fn sub_readonly(_tier: Tier) -> Sub {
     )
 }
 
-pub fn def(tier: Tier) -> CheckDef {
+pub fn def(_cli_tier: Tier) -> CheckDef {
+    // the whole thorough space costs ~10 s: both tiers run it
+    let tier = Tier::Thorough;
     let mut required: Vec<String> = vec!["write:symbolic-equals-direct".into(), "write:constant-equals-direct".into(), "read:relocating-equals-pre-applied".into(), "perturbation:both-sides-change-identically".into()];
     for c in [
         ".debug_info:address",
